@@ -41,6 +41,7 @@ AXES = {
     "folding_mode": ["ema_stats_folding", "batch_stats_folding"], "use_bias": [True, False], "center": [True, False],
     "scale": [True, False], "strides": [1, 2], "padding": ["valid", "same"], "dilation_rate": [1, 2],
     "q": ["none", "fixed", "po2"], "ema_freeze_delay": [None, 0, 5],
+    "depth_multiplier": [1, 2],      # depthwise class only: output channel c*dm + m belongs to input channel c
 }
 PROGRAMS = ["conv_bn", "dw_bn", "conv_bn_relu_dense", "conv_bn_conv_bn", "diamond_add", "conv_two_consumers",
             "conv_nobias_bn", "conv_act_bn", "conv_bn_dense_statsbn"]
@@ -61,6 +62,8 @@ def enumerate_cases(tier, seed):
   for cls in ("QConv2DBatchnorm", "QDepthwiseConv2DBatchnorm"):
     for g in common.dev_product(AXES, k):
       if g["dilation_rate"] > 1 and g["strides"] > 1:
+        continue
+      if cls == "QConv2DBatchnorm" and g["depth_multiplier"] != 1:
         continue
       out.append(dict(sub="layer", cls=cls, g=g, _seed=seed))
   for prog in PROGRAMS:
@@ -119,10 +122,11 @@ def run_layer(case):
                      use_bias=g["use_bias"], name="stock")
     nch = cout
   else:
-    layer = qkeras.QDepthwiseConv2DBatchnorm(depthwise_quantizer=kq, **kw)
+    dm = g.get("depth_multiplier", 1)
+    layer = qkeras.QDepthwiseConv2DBatchnorm(depthwise_quantizer=kq, depth_multiplier=dm, **kw)
     stock = L.DepthwiseConv2D(2, strides=g["strides"], padding=g["padding"], dilation_rate=g["dilation_rate"],
-                              use_bias=g["use_bias"], name="stock")
-    nch = cin
+                              use_bias=g["use_bias"], depth_multiplier=dm, name="stock")
+    nch = cin * dm
   shape = (2, 6, 6, cin)
   xs = [common.tensor(shape, "ramp", case["_seed"]), common.tensor(shape, "grid7", case["_seed"])]
   try:
@@ -176,7 +180,7 @@ def run_layer(case):
             if cls == "QConv2DBatchnorm":
               fk = inv * tf.constant(kernel)
             else:
-              fk = tf.reshape(inv, (1, 1, nch, 1)) * tf.constant(kernel)
+              fk = tf.reshape(inv, (1, 1, cin, nch // cin)) * tf.constant(kernel)
             fb = inv * (tf.constant(bias_eff) - tf.constant(mean)) + tf.constant(b_eff)
             qfk = np.asarray(qk(fk), dtype=np.float32) if qk is not None else np.asarray(fk)
             qfb = np.asarray(qb(fb), dtype=np.float32) if qb is not None else np.asarray(fb)
@@ -185,7 +189,7 @@ def run_layer(case):
             stock.set_weights([kernel] + ([bias] if g["use_bias"] else []))
             if not np.array_equal(y, ref):
               # fallback: float64 evaluation of the same formulas
-              fk64 = (inv64.reshape((1, 1, nch, 1)) if cls != "QConv2DBatchnorm" else inv64) * kernel.astype(np.float64)
+              fk64 = (inv64.reshape((1, 1, cin, nch // cin)) if cls != "QConv2DBatchnorm" else inv64) * kernel.astype(np.float64)
               fb64 = inv64 * (bias_eff.astype(np.float64) - mean) + b_eff
               qfk64 = np.asarray(qk(fk64.astype(np.float32)), dtype=np.float32) if qk is not None else fk64.astype(np.float32)
               qfb64 = np.asarray(qb(fb64.astype(np.float32)), dtype=np.float32) if qb is not None else fb64.astype(np.float32)
@@ -199,7 +203,7 @@ def run_layer(case):
               nontriv = 1
           # get_folded_weights reports the documented folded weights
         fw = layer.get_folded_weights()
-        fk_ref = (inv64.reshape((1, 1, nch, 1)) if cls != "QConv2DBatchnorm" else inv64) * kernel.astype(np.float64)
+        fk_ref = (inv64.reshape((1, 1, cin, nch // cin)) if cls != "QConv2DBatchnorm" else inv64) * kernel.astype(np.float64)
         fb_ref = inv64 * (bias_eff.astype(np.float64) - mean) + b_eff
         evals += 1
         if not (np.allclose(np.asarray(fw[0]), fk_ref, rtol=2e-5, atol=1e-6 * (np.max(np.abs(fk_ref)) + 1e-9)) and
@@ -322,6 +326,26 @@ def run_model(case):
           break
       if any(l.__class__.__name__.endswith("Batchnorm") for l in um.layers):
         bad("unfold-leaves-folded-layers", "unfold_model left folded layers in the model")
+      # --- history: the SAME folded model is unfolded again after its weights were replaced (set_weights: the layer's
+      # iteration counter does not move): unfolding is a function of the current weights
+      saved = {c: qm.get_layer(c).get_weights() for c, _ in fold}
+      for c, _ in fold:
+        ql = qm.get_layer(c)
+        ql.set_weights([w if w.ndim == 0 else (w * np.float32(0.5) + np.float32(0.0625)).astype(np.float32) if i == 0 else w
+                        for i, w in enumerate(ql.get_weights())])
+      um2 = bn_folding_utils.unfold_model(qm)
+      yq2 = [np.asarray(qm(tf.constant(x), training=False), dtype=np.float32) for x in xs]
+      yu2 = [np.asarray(um2(tf.constant(x), training=False), dtype=np.float32) for x in xs]
+      evals += len(xs)
+      for a, b in zip(yq2, yu2):
+        if not np.array_equal(a, b) and not np.allclose(a, b, rtol=0, atol=1e-5 * (np.max(np.abs(a)) + 1e-6)):
+          bad("unfold-after-set_weights", "a second unfold_model after the folded layers' kernels were replaced changes the "
+              "predictions (max |d| = %g)" % float(np.max(np.abs(a.astype(np.float64) - b))))
+          break
+      if all(np.array_equal(a, b) for a, b in zip(yq, yq2)):
+        bad("harness:weights-not-changed", "replacing the kernel did not change the folded model's predictions")
+      for c, ws in saved.items():
+        qm.get_layer(c).set_weights(ws)
       # --- folding algebra with the quantizers switched off on the folded layers ----------------------
       for c, _ in fold:
         ql = qm.get_layer(c)
